@@ -51,3 +51,7 @@ claim("C06",
  "Proof for every metadata value satisfying the stated well-formedness preconditions: Data.CreateShardGroup creates a group whose range contains the timestamp and is disjoint from the effective range of every live (non-deleted, possibly truncated) group of the policy; the group ID and the shard IDs are the next unused counter values (counters are incremented first and never decrease); every shard gets exactly clamp(ReplicaN,1,#nodes) owners. The shardN search loop's bound (shardN <= #nodes) is an ASSUMED invariant (number-theoretic; listed in the evidence), owner distinctness/evenness and determinism of the whole FSM are not decided yet.",
  "Preconditions: #nodes <= 4096, ID counters far from 2^64, every RetentionPolicyInfo has ReplicaN >= 0 and ShardGroupDuration > 0, truncated groups have TruncatedAt <= EndTime. Nonlinear products/divisions are kept abstract (uf_mul/uf_rem with valid bounds). sort.Sort of the group list happens after the checked point.",
  "DESIGN.md 3/C06")
+claim("C07",
+ "Proof of the snapshot-isolation mechanism only: Data.Clone and the clone methods of DatabaseInfo, RetentionPolicyInfo, ShardGroupInfo, ShardInfo, UserInfo and CloneDatabases/CloneUsers return values every slice/map field of which is empty or freshly allocated by the call (two levels deep for shard groups), of the original's length, and write nothing that existed before (frame). Hence a published metadata object is never mutated through its clone. Raft, failover, restart, log replay, validateCommand and the protobuf round trip are NOT decided.",
+ "copy/make/append follow the memory model built into govc.",
+ "DESIGN.md 3/C07")
